@@ -1790,6 +1790,9 @@ class Interp:
                     cur.items, cur.n, cur._at, cur.elem = None, new.n, new._at, new.elem
                 elif isinstance(cur, list):
                     base.fields[name] = self.havoc_value(cur, name)
+                elif isinstance(cur, V.SMap):
+                    new = V.SMap.fresh(name, cur.elem, inp=False)
+                    cur._has, cur._get = new._has, new._get          # in place: aliases of the dict see the havoc
                 else:
                     base.fields[name] = self.havoc_value(cur, name)
 
